@@ -1480,7 +1480,9 @@ vbi_export_vprintf		(vbi_export *		e,
 		size_t avail = e->buffer.capacity - offset;
 		int len;
 
-		len = vsnprintf (e->buffer.data + offset,
+		/* NULL + 0 is undefined. */
+		len = vsnprintf ((NULL == e->buffer.data) ?
+				 NULL : e->buffer.data + offset,
 				 avail, templ, ap);
 		if (len < 0) {
 			/* avail is not enough. */
